@@ -31,6 +31,14 @@ func (vc *VC) recordFrame(newH, old Term, wm, guard Term, excl []Term) {
 // (Apply, Copy, phantom reification, executability propagation, the scanner)
 // do so on fresh copies.
 func (vc *VC) havocHeapKeepOld(st, pre *State, h string, pc Term) {
+	vc.havocHeapKeepOldBelow(st, pre, h, pc, pre.wm)
+}
+
+// havocHeapKeepOldBelow: as havocHeapKeepOld, but only the objects below the
+// watermark wm keep their values. A loop of the verified function may write
+// the objects the function itself allocated before the loop (an entry under
+// construction), so loops protect only what existed at function entry.
+func (vc *VC) havocHeapKeepOldBelow(st, pre *State, h string, pc Term, wm Term) {
 	info := vc.heapInfo[h]
 	if info == nil {
 		return
@@ -41,8 +49,8 @@ func (vc *VC) havocHeapKeepOld(st, pre *State, h string, pc Term) {
 	}
 	old := vc.heap(pre, h, info.Sort)
 	vc.havocHeap(st, h)
-	vc.assume(pc, vc.frameFormula(st.heaps[h], old, h, nil, pre.wm))
-	vc.recordFrame(st.heaps[h], old, pre.wm, pc, nil)
+	vc.assume(pc, vc.frameFormula(st.heaps[h], old, h, nil, wm))
+	vc.recordFrame(st.heaps[h], old, wm, pc, nil)
 	vc.assumes["objects of the types declared immutable in the contract files are written only while being constructed (callees modify only objects they allocate)"] = true
 }
 
